@@ -23,6 +23,19 @@ var (
 // offset, offset reaching before the dictionary, truncated sequence, output
 // larger than max) is an error.
 func DecodeBlock(src, dict []byte, max int) ([]byte, error) {
+	return DecodeBlockStats(src, dict, max, nil)
+}
+
+// BlockStats counts features of the matches of decoded blocks (reach probes).
+type BlockStats struct {
+	Matches     int
+	DictMatches int // matches that start in the dictionary (cross-block)
+	Off65535    int // matches at the maximum offset
+	Overlap     int // offset < match length
+}
+
+// DecodeBlockStats is DecodeBlock that also accumulates match statistics.
+func DecodeBlockStats(src, dict []byte, max int, st *BlockStats) ([]byte, error) {
 	if len(src) == 0 {
 		return nil, ErrBlockEmpty
 	}
@@ -90,6 +103,18 @@ func DecodeBlock(src, dict []byte, max int) ([]byte, error) {
 		}
 		if len(out)+ml > max {
 			return nil, ErrBlockOverflow
+		}
+		if st != nil {
+			st.Matches++
+			if off > len(out) {
+				st.DictMatches++
+			}
+			if off == 65535 {
+				st.Off65535++
+			}
+			if off < ml {
+				st.Overlap++
+			}
 		}
 		for i := 0; i < ml; i++ {
 			p := len(out) - off
